@@ -955,3 +955,7 @@ M('c16j-connect-2xx-completes-without-looking', 'C16', 'break', RS,
   'htp_status_t htp_connp_RES_FINALIZE(htp_connp_t *connp) {\n    if ((connp->out_tx->request_method_number == HTP_M_CONNECT) && (connp->out_tx->response_status_number >= 200) && (connp->out_tx->response_status_number <= 299)) {\n        return htp_tx_state_response_complete_ex(connp->out_tx, 0);\n    }\n', 'C16.j')
 M('c16g-wait-gate-keyed-on-status-number', 'C16', 'break', RQ,
   '    if (connp->in_tx->response_progress <= HTP_RESPONSE_LINE) {\n        return HTP_DATA_OTHER;', '    if (connp->in_tx->response_status_number == HTP_STATUS_UNKNOWN) {\n        return HTP_DATA_OTHER;', 'C16.g')
+M('c07r-advance-measured-from-scan-start', 'C07', 'break', TX,
+  '                size_t used = (size_t) (tok - input) + tok_len + 1;', '                size_t used = tok_len + 1;', 'C07.r')
+M('c07r-advance-written-in-one-expression-keep', 'C07', 'keep', TX,
+  '                input += used;\n                input_len -= used;', '                input_len -= used;\n                input = tok + tok_len + 1;')
